@@ -818,6 +818,21 @@ func (g *genState) metaCall(k int) map[string]any {
 		return call("wamp.subscription.count_suscribers", hcommon.Pick(r, [][]any{{subID}, nil, {0}}), nil)
 	case 21:
 		kw := map[string]any{}
+		if g.prop == "C20" && r.Chance(1, 4) {
+			// directed: a small limit together with a filter that rejects some of the newest
+			// entries and no publication-id bound -- the limit counts the entries that PASS
+			// the filters, not the newest entries of the store (seeded change C20-9)
+			kw["limit"] = hcommon.Pick(r, []any{1, 2, 3})
+			if r.Chance(4, 5) {
+				kw["topic"] = hcommon.Pick(r, g.histTopics())
+			} else {
+				kw[hcommon.Pick(r, []string{"before_time", "until_time"})] = map[string]any{"$ms": hcommon.Pick(r, []int{1, 50, 100})}
+			}
+			if r.Chance(1, 3) {
+				kw["reverse"] = true
+			}
+			return call("wamp.subscription.get_events", []any{subID}, kw)
+		}
 		if g.prop == "C20" {
 			// combinations of filters: topic x publication bounds x limit x reverse
 			if r.Chance(1, 2) {
